@@ -116,6 +116,9 @@ func vpC16Single(tname string) {
 	shape := []int{0, 1, 2, 3, 4, 6, 10}[vpChoice(7)]
 	x := vpNew(ti)
 	vpSetField(x, 0, 0, 'i')
+	if vpBool() {
+		x = vpPopulated(ti) // every other property set: none of them may change
+	}
 	f := vpFieldIndex(ti, pos)
 	vpSetField(x, f, shape, 'a')
 	// some unrelated properties that must survive
